@@ -2,21 +2,22 @@
 """Translator: regenerate coq/theories/Model/ArgGen.v from class `TexArgs` of
 $TEXSOUP_REPO/TexSoup/data.py (default /repo).
 
-__init__, __coerce, append, extend, insert, remove, pop, reverse, clear and
-__getitem__ -- and the classmethod TexGroup.parse, which __coerce calls -- are read with the
+__init__, __coerce, append, extend, insert, remove, pop, reverse, clear,
+__getitem__, __contains__ and __str__ -- and the classmethod TexGroup.parse, which __coerce
+calls -- are read with the
 Python `ast` module only (nothing is imported
 or executed) and written as terms of the language of
 coq/theories/Model/ArgDSL.v, one Coq constructor per Python construct.
 Proofs/ArgGenProofs.v then proves that interpreting each generated term is
-the hand-written operation of Model/Args.v.  __contains__, __str__ and
-__repr__ are outside the language (list comprehension over `.string`,
-map/join): they must be present, and are not translated.
+the hand-written operation of Model/Args.v.  __repr__ is outside the language
+(repr of a group: string-literal escaping): it must be present, and is not translated.
 
 Fail-closed: any statement or expression shape that is not listed in ArgDSL.v
 raises TranslationError, as does a change of what the reading relies on: the
 set of methods of the class and its base (list), a rebinding of isinstance /
 str / list / len / max / min / super / TexGroup / TexCmd / TexArgs, the
-source of TexExpr.__eq__ and of the delimiters of
+source of TexExpr.__eq__, of the getter of TexExpr.string (which the group classes must
+not override), of TexText.__eq__ and of the delimiters of
 BraceGroup / BracketGroup / arg_type (pinned to the reference text below), a decorator of
 TexGroup.parse other than @classmethod,
 an __eq__ defined between TexExpr and the two group classes.
@@ -30,6 +31,9 @@ is `x = a if c else b`; an `else` after a branch that always returns is hoisted
 (`if c: return a else: S` = `if c: return a` followed by S); the empty tuple as the
 default of a parameter that is only iterated is the empty list; the order of the
 method definitions in the class body is irrelevant (emitted in a fixed order);
+`[p for x in S]`, the generator `(p for x in S)` and `map(str, S)` as the argument of
+any(.) / s.join(.) are the same program (they are consumed at once there, and the element
+expressions of the language have no effects and no exceptions inside the fragment);
 additional methods whose names neither are list methods / special methods nor are
 called by a translated method are ignored.
 
@@ -133,15 +137,17 @@ def normalise_block(body):
 
 EXTRA = ['parse']      # TexGroup.parse
 TRANSLATED = ['__init__', '__coerce', 'append', 'extend', 'insert', 'remove', 'pop', 'reverse',
-              'clear', '__getitem__']
-UNTRANSLATED = ['__contains__', '__str__', '__repr__']
-COQ_METH = {'__init__': 'M_init', '__coerce': 'M_coerce', '__getitem__': 'M_getitem'}
-GEN_NAME = {'__init__': 'gen_a_init', '__coerce': 'gen_a_coerce', '__getitem__': 'gen_a_getitem'}
+              'clear', '__getitem__', '__contains__', '__str__']
+UNTRANSLATED = ['__repr__']
+COQ_METH = {'__init__': 'M_init', '__coerce': 'M_coerce', '__getitem__': 'M_getitem',
+            '__contains__': 'M_contains', '__str__': 'M_str'}
+GEN_NAME = {'__init__': 'gen_a_init', '__coerce': 'gen_a_coerce', '__getitem__': 'gen_a_getitem',
+            '__contains__': 'gen_a_contains', '__str__': 'gen_a_str'}
 for _m in TRANSLATED + EXTRA:
     COQ_METH.setdefault(_m, 'M_' + _m)
     GEN_NAME.setdefault(_m, 'gen_a_' + _m)
 EXNS = ('TypeError', 'ValueError', 'IndexError')
-BUILTINS = ('isinstance', 'str', 'list', 'len', 'max', 'min', 'super', 'getattr') + EXNS
+BUILTINS = ('isinstance', 'str', 'list', 'len', 'max', 'min', 'super', 'getattr', 'any', 'map') + EXNS
 
 
 def safe_message(n):
@@ -164,13 +170,25 @@ def safe_message(n):
 LIST_ATTRS = frozenset(dir(list))
 LOPS = {'__init__': 'LInit', 'insert': 'LInsert', 'remove': 'LRemove', 'pop': 'LPop',
         'reverse': 'LReverse', 'clear': 'LClear', '__getitem__': 'LGetitem', 'index': 'LIndex',
-        'append': 'LAppend'}
+        'append': 'LAppend', '__contains__': 'LContains'}
 CMP = {ast.Lt: 'CLt', ast.LtE: 'CLe', ast.Eq: 'CEq'}
 
 PINNED = '''
 class TexExpr(object):
     def __eq__(self, other):
         return str(other) == str(self)
+
+    @property
+    def string(self):
+        return TexText(''.join(map(str, self._contents)))
+
+class TexText(TexExpr, str):
+    def __eq__(self, other):
+        if isinstance(other, TexText):
+            return self._text == other._text
+        if isinstance(other, str):
+            return self._text == other
+        return False
 
 class TexGroup(TexUnNamedEnv):
     pass
@@ -219,7 +237,7 @@ def check_module(tree):
             pass
         else:
             raise TranslationError('unexpected module-level statement at %s: %s' % (where(st), shape(st)))
-    for nm in ['TexArgs', 'TexGroup', 'TexCmd', 'TexExpr'] + EQ_CHAIN:
+    for nm in ['TexArgs', 'TexGroup', 'TexCmd', 'TexExpr', 'TexText'] + EQ_CHAIN:
         need(bound.get(nm) == ['class'], 'module-level binding of %s changed: %s' % (nm, bound.get(nm)))
     need(bound.get('arg_type') == ['assign'], 'binding of arg_type changed')
     for nm in BUILTINS:
@@ -238,7 +256,7 @@ def check_module(tree):
             raise TranslationError('%s(...) at %s' % (n.func.id, where(n)))
         if isinstance(n, ast.Attribute) and not isinstance(n.ctx, ast.Load) \
                 and isinstance(n.value, ast.Name) \
-                and n.value.id in ['TexArgs', 'TexGroup', 'TexExpr'] + EQ_CHAIN:
+                and n.value.id in ['TexArgs', 'TexGroup', 'TexExpr', 'TexText'] + EQ_CHAIN:
             raise TranslationError('assignment to an attribute of class %s at %s' % (n.value.id, where(n)))
     classes = {st.name: st for st in tree.body if isinstance(st, ast.ClassDef)}
     # ---- pinned sources
@@ -256,7 +274,8 @@ def check_module(tree):
             if isinstance(item, ast.Pass):
                 continue
             if isinstance(item, ast.FunctionDef):
-                got = [x for x in cl.body if isinstance(x, ast.FunctionDef) and x.name == item.name]
+                got = [x for x in cl.body if isinstance(x, ast.FunctionDef) and x.name == item.name
+                       and [ast.dump(d) for d in x.decorator_list] == [ast.dump(d) for d in item.decorator_list]]
                 need(len(got) == 1 and norm_fn(got[0]) == norm_fn(item),
                      '%s.%s differs from the source the interpreter\'s reading is pinned to'
                      % (r.name, item.name))
@@ -272,9 +291,9 @@ def check_module(tree):
         cl = classes[nm]
         need(len(cl.bases) == 1 and is_name(cl.bases[0], chain[nm]), 'base of %s changed' % nm)
         for x in ast.walk(cl):
-            if isinstance(x, ast.FunctionDef) and x.name in ('__eq__', '__ne__'):
+            if isinstance(x, ast.FunctionDef) and x.name in ('__eq__', '__ne__', 'string'):
                 raise TranslationError('%s defines %s' % (nm, x.name))
-            if isinstance(x, ast.Name) and x.id in ('__eq__', '__ne__') and isinstance(x.ctx, ast.Store):
+            if isinstance(x, ast.Name) and x.id in ('__eq__', '__ne__', 'string') and isinstance(x.ctx, ast.Store):
                 raise TranslationError('%s binds %s' % (nm, x.id))
     # ---- the class itself
     cl = classes['TexArgs']
@@ -323,8 +342,8 @@ class Scope(object):
         for n in ast.walk(fn):
             need(not isinstance(n, (ast.FunctionDef, ast.AsyncFunctionDef, ast.ClassDef, ast.Lambda,
                                     ast.Yield, ast.YieldFrom, ast.Await, ast.With, ast.Import,
-                                    ast.ImportFrom, ast.While, ast.Try, ast.NamedExpr, ast.ListComp,
-                                    ast.GeneratorExp, ast.SetComp, ast.DictComp,
+                                    ast.ImportFrom, ast.While, ast.Try, ast.NamedExpr,
+                                    ast.SetComp, ast.DictComp,
                                     ast.Starred, ast.Break, ast.Continue)) or n is fn,
                  '%s: unsupported construct at %s: %s' % (fn.name, where(n), type(n).__name__))
 
@@ -357,6 +376,8 @@ class Scope(object):
                 return 'ENone'
             if type(n.value) is int:
                 return 'EInt %s' % zlit(n.value)
+            if type(n.value) is str:
+                return 'EStr [%s]' % '; '.join(zlit(ord(c)) for c in n.value)
             self.err(n, 'unsupported constant')
         if isinstance(n, ast.UnaryOp):
             if isinstance(n.op, ast.USub) and isinstance(n.operand, ast.Constant) \
@@ -371,6 +392,8 @@ class Scope(object):
                 and isinstance(n.value, ast.Name) and n.value.id in self.vars:
             # a class attribute of a class object (defined on a class object only)
             return 'EClsAttr %s (%s)' % ('true' if n.attr == 'end' else 'false', self.ex(n.value))
+        if isinstance(n, ast.ListComp):
+            return self.comp(n)
         if isinstance(n, ast.List):
             if n.elts == [] and isinstance(n.ctx, ast.Load):
                 return 'EEmptyList'
@@ -431,6 +454,8 @@ class Scope(object):
                     if isinstance(t, ast.Tuple) and len(t.elts) == 2 and is_name(t.elts[0], 'TexGroup') \
                             and is_name(t.elts[1], 'TexCmd') and self.free('TexGroup') and self.free('TexCmd'):
                         return 'EIsGroupOrCmd (%s)' % self.ex(a[0])
+                if f.id == 'any' and len(a) == 1:
+                    return 'EAny (%s)' % self.iterable(a[0])
                 if f.id == 'len' and len(a) == 1:
                     return 'ELen (%s)' % self.ex(a[0])
                 if f.id in ('max', 'min') and len(a) == 2:
@@ -458,6 +483,8 @@ class Scope(object):
                 if f.attr == 'isspace' and len(a) == 0 and isinstance(f.value, ast.Name) \
                         and f.value.id in self.vars:
                     return 'EIsSpace (%s)' % self.ex(f.value)
+                if f.attr == 'join' and len(a) == 1:
+                    return 'EJoin (%s) (%s)' % (self.ex(f.value), self.iterable(a[0]))
                 # methods of str (defined on a str only: EUnsup otherwise)
                 if f.attr in ('startswith', 'endswith') and len(a) == 1:
                     return '%s (%s) (%s)' % ('EStartsWith' if f.attr == 'startswith' else 'EEndsWith',
@@ -467,6 +494,52 @@ class Scope(object):
                                                     self.ex(f.value), self.ex(a[0]))
             self.err(n, 'unsupported call')
         self.err(n, 'unsupported expression')
+
+    # ---- comprehensions
+    def iterable(self, n):
+        """the argument of any(.) / s.join(.): consumed at once, so a generator expression
+        and map(str, S) are the list comprehension with the same elements"""
+        if isinstance(n, (ast.ListComp, ast.GeneratorExp)):
+            return self.comp(n)
+        if isinstance(n, ast.Call) and is_name(n.func, 'map') and self.free('map') and not n.keywords \
+                and len(n.args) == 2 and is_name(n.args[0], 'str') and self.free('str'):
+            return 'EComp (PStr (PElem)) %s' % self.source(n.args[1])
+        return self.ex(n)
+
+    def source(self, n):
+        if self.is_self(n):
+            return 'CSelf'
+        if self.is_all(n):
+            return 'CAll'
+        self.err(n, 'iteration over something other than self / self.all')
+
+    def comp(self, n):
+        if len(n.generators) != 1:
+            self.err(n, 'nested comprehension')
+        g = n.generators[0]
+        if g.ifs or g.is_async or not isinstance(g.target, ast.Name):
+            self.err(n, 'unsupported comprehension')
+        v = g.target.id
+        need(v != self.self_name and v not in BUILTINS and v not in ('TexArgs', 'TexGroup', 'TexCmd'),
+             '%s: comprehension variable %s' % (self.owner, v))
+        return 'EComp (%s) %s' % (self.pex(n.elt, v), self.source(g.iter))
+
+    def pex(self, n, v):
+        """the element expression of a comprehension whose variable is v"""
+        if isinstance(n, ast.Name) and isinstance(n.ctx, ast.Load):
+            if n.id == v:
+                return 'PElem'
+            if n.id in self.vars:
+                return 'PVar %d%%nat' % self.vars[n.id]
+            self.err(n, 'name in a comprehension that is neither its variable nor a local')
+        if isinstance(n, ast.Attribute) and isinstance(n.ctx, ast.Load) and n.attr == 'string':
+            return 'PString (%s)' % self.pex(n.value, v)
+        if isinstance(n, ast.Call) and is_name(n.func, 'str') and self.free('str') and not n.keywords \
+                and len(n.args) == 1 and not isinstance(n.args[0], ast.Starred):
+            return 'PStr (%s)' % self.pex(n.args[0], v)
+        if isinstance(n, ast.Compare) and len(n.ops) == 1 and isinstance(n.ops[0], ast.Eq):
+            return 'PEq (%s) (%s)' % (self.pex(n.left, v), self.pex(n.comparators[0], v))
+        self.err(n, 'unsupported element expression of a comprehension')
 
     def index(self, idx):
         if isinstance(idx, getattr(ast, 'Index', ())):
